@@ -36,6 +36,10 @@ def payloads(maxn):
 
 def cases(tier, rng):
     out = gen.corpus(ID)
+    # safety net: seeded random schedules of these socket types over scripted pipes (partial reads, back-pressure,
+    # errors, futures polled once or twice and then ABANDONED, sockets dropped) — every line predicted by the World model
+    for i in range(150 if tier == "quick" else 3000):
+        out.append(wg.random_case(rng, f"random-world#{i}", ["REQ", "REP", "DEALER", "ROUTER"], tags=("random-world",)))
     maxn = 3 if tier == "quick" else 4
     pls = payloads(maxn)
     n = 0
